@@ -119,9 +119,9 @@ var models = map[string]Model{
 	"invoke " + pCOSE + ".Signer.Algorithm":           {Pure: true, Why: "go-cose signer.go: accessor of a caller-supplied signer"},
 
 	// --- veraison/eat ---
-	"(*" + pEAT + ".Nonce).Add":   {Writes: []int{0}, Why: "eat nonce.go: appends v when 8 <= len(v) <= 64, else error"},
-	"(" + pEAT + ".Nonce).Len":    {Pure: true, Why: "eat nonce.go"},
-	"(" + pEAT + ".Nonce).GetI":   {Pure: true, Why: "eat nonce.go"},
+	"(*" + pEAT + ".Nonce).Add":   {Writes: []int{0}, Custom: modelNonceAdd, Why: "eat nonce.go:19,124: appends v when 8 <= len(v) <= 64, else error; on an empty Nonce the result has Len()=1 and GetI(0)=v"},
+	"(" + pEAT + ".Nonce).Len":    {Pure: true, Custom: modelNonceLen, Why: "eat nonce.go"},
+	"(" + pEAT + ".Nonce).GetI":   {Pure: true, Custom: modelNonceGetI, Why: "eat nonce.go"},
 	"(*" + pEAT + ".Profile).Set": {Writes: []int{0}, Why: "eat profile.go"},
 	"(" + pEAT + ".Profile).Get":  {Pure: true, Why: "eat profile.go"},
 }
@@ -310,4 +310,48 @@ func sortedKeys(m map[string]bool) []string {
 	}
 	sortStrings(out)
 	return out
+}
+
+// modelNonceAdd: Add on a fresh (zero) Nonce succeeds iff 8 <= len(v) <= 64;
+// afterwards the Nonce holds exactly v.
+func modelNonceAdd(e *Engine, st *State, x *ssa.Call, args []AV) AV {
+	if len(args) == 2 && args[0].Kind == KAddr {
+		cur, ok := st.mem[args[0].Loc]
+		lt := e.lenTerm(st, args[1])
+		empty := ok && (cur.Kind == KZero || cur.Kind == KNil || (cur.Kind == KSliceOf && cur.N == 0) || (cur.Kind == KSeq && len(cur.Elems) == 0))
+		if empty {
+			if set, ok2 := e.linRange(st, lt); ok2 && set.subsetOf(iset{{8, 64}}) {
+				v := args[1]
+				e.kill(st, args[0].Loc)
+				st.mem[args[0].Loc] = AV{Kind: KSym, Sym: "nonce1(" + v.name() + ")", Inner: &v}
+				return avNil()
+			}
+		}
+	}
+	if len(args) > 0 {
+		e.havocPointee(st, args[0], "Nonce.Add")
+	}
+	return e.resultAV(st, x, fmt.Sprintf("(*eat.Nonce).Add#%s.%s@%d", x.Parent().Name(), x.Name(), st.epoch), nil)
+}
+
+func modelNonceLen(e *Engine, st *State, x *ssa.Call, args []AV) AV {
+	if len(args) == 1 && args[0].Kind == KSym && strings.HasPrefix(args[0].Sym, "nonce1(") {
+		return avInt(1)
+	}
+	var names []string
+	for _, a := range args {
+		names = append(names, a.name())
+	}
+	return e.resultAV(st, x, "(eat.Nonce).Len("+strings.Join(names, ",")+")", nil)
+}
+
+func modelNonceGetI(e *Engine, st *State, x *ssa.Call, args []AV) AV {
+	if len(args) == 2 && args[0].Kind == KSym && strings.HasPrefix(args[0].Sym, "nonce1(") && args[0].Inner != nil && args[1].Kind == KInt && args[1].K == 0 {
+		return *args[0].Inner
+	}
+	var names []string
+	for _, a := range args {
+		names = append(names, a.name())
+	}
+	return e.resultAV(st, x, "(eat.Nonce).GetI("+strings.Join(names, ",")+")", nil)
 }
